@@ -11,7 +11,21 @@ pub fn drive(t: &mut Tracer, r: &mut Rng, n: usize) {
         let near = |r: &mut Rng| -> i64 { if ats.is_empty() || r.chance(1, 4) { r.range(-4 * 86_400, 40 * 86_400) } else { *r.pick(&ats) + match r.range(0, 2) { 0 => r.range(-4000, 4000), 1 => r.range(-90_000, 90_000), _ => r.range(-400_000, 400_000) } } };
         let mut cur = near(r);
         for _ in 0..r.range(5, 16) {
-            match r.range(0, 9) {
+            match r.range(0, 13) {
+                // Duration round / total / compare relative to the zoned date-time
+                10..=13 => { let sg: i128 = if r.chance(1, 3) { -1 } else { 1 };
+                    let m = |r: &mut Rng, p: u64, hi: i64| -> i128 { if r.chance(1, p) { r.range(0, hi) as i128 } else { 0 } };
+                    let dur = dur10(sg * m(r, 8, 1), sg * m(r, 3, 3), sg * m(r, 4, 2), sg * m(r, 2, 25), sg * m(r, 2, 50), sg * m(r, 2, 90), sg * m(r, 2, 4000), 0, 0, 0);
+                    match r.range(0, 3) {
+                        0 | 1 => { let sm = *r.pick(&["month", "week", "day", "hour", "minute", "second"][..]);
+                            let lg_c: Vec<&str> = ["year", "month", "week", "day", "hour", "minute", "second"].iter().cloned().filter(|l| unit_rank(l) >= unit_rank(sm)).collect();
+                            let mut lg = *r.pick(&lg_c[..]);
+                            let inc = match sm { "hour" => *r.pick(&[1i64, 1, 2, 3, 6, 12][..]), "minute" | "second" => *r.pick(&[1i64, 1, 5, 15, 30][..]), _ => if r.chance(1, 4) { lg = sm; r.range(2, 4) } else { 1 } };
+                            t.call("ZDur.round", json!({"zone": zone, "t": cur, "recv": dur, "st": {"largest": lg, "smallest": sm, "inc": inc, "mode": *r.pick(&MODES[..])}})); }
+                        2 => { t.call("ZDur.total", json!({"zone": zone, "t": cur, "recv": dur, "unit": *r.pick(&["year", "month", "week", "day", "hour", "minute", "second"][..])})); }
+                        _ => { let other = dur10(0, 0, 0, sg * r.range(0, 60) as i128, sg * m(r, 2, 50), 0, 0, 0, 0, 0);
+                            t.call("ZDur.compare", json!({"zone": zone, "t": cur, "recv": dur, "other": other})); }
+                    } }
                 0..=2 => { let sg: i128 = if r.chance(1, 2) { 1 } else { -1 };
                     let m = |r: &mut Rng, hi: i64| -> i128 { if r.chance(1, 2) { 0 } else { r.range(0, hi) as i128 } };
                     let dur = dur10(0, sg * m(r, 2), sg * m(r, 2), sg * m(r, 5), sg * m(r, 30), sg * m(r, 90), sg * m(r, 4000), 0, 0, 0);
